@@ -44,7 +44,7 @@ enum kind {
     K_INT, K_STOP, K_STOPSELF, K_EXIT, K_RETURN, K_PRIO,
     K_RACQ, K_RPRE, K_RREL, K_PACQ, K_PPRE, K_PREL,
     K_BPUT, K_BGET, K_OQPUT, K_OQGET, K_PQPUT, K_PQGET, K_PQCANCEL, K_PQREPRIO,
-    K_CWAIT, K_CSIG, K_SETX, K_CCANCEL, K_CREMOVE, K_CSUB, K_CUNSUB, K_CSUBB, K_CUNSUBB, K_TCLEARO, K_TADDO, K_CREMOVEB, K_CCANCELB,
+    K_CWAIT, K_CSIG, K_SETX, K_CCANCEL, K_CREMOVE, K_CSUB, K_CUNSUB, K_CSUBB, K_CUNSUBB, K_TCLEARO, K_TADDO, K_CREMOVEB, K_CCANCELB, K_CWAITB,
     K_EVSCHED, K_EVCANCEL, K_RECON, K_RECOFF, K_START, K_NOP, NKINDS
 };
 
@@ -103,6 +103,7 @@ struct drv {
     int sub_res;                /* the condition observes resource 0's guard: 0 no, 1 via guard register, 2 via condition subscribe */
     bool sub_pool;              /* the condition observes the pool's guard */
     bool sub_b;                 /* a second condition (nobody waits on it) observes resource 0's guard as well */
+    bool sub_static;            /* the observer relations were set up before the run and no operation changes them */
     struct cmb_condition cond_b;
     /* objects */
     int nres;
